@@ -137,12 +137,12 @@ def plan_c12(tier):
     )
 
 
-HMC_ROOTS = ["0,0", "1,4", "2,4", "2,1", "3,4", "3,1", "4,4", "5,4", "6,4", "7,0", "8,0", "9,4", "9,1", "10,4", "10,1", "11,4", "12,4", "13,4", "14,4", "15,126", "15,64", "16,127", "17,4", "18,4"]
-ROOT_WEIGHT = {"14,4": 28, "15,126": 25, "15,64": 25, "9,4": 24, "18,4": 22, "12,4": 18, "11,4": 17, "10,4": 17, "9,1": 14, "10,1": 12, "8,0": 8, "17,4": 8, "16,127": 8, "3,4": 7, "2,4": 5, "4,4": 5, "6,4": 5, "5,4": 4, "13,4": 1, "0,0": 1, "1,4": 2, "7,0": 3, "2,1": 3, "3,1": 4}
-QUICK_SHALLOW = {"4,4": 3, "6,4": 3, "11,4": 3, "12,4": 3, "15,64": 3}
+HMC_ROOTS = ["0,0", "1,4", "2,4", "2,1", "3,4", "3,1", "4,4", "5,4", "6,4", "7,0", "8,0", "9,4", "9,1", "10,4", "10,1", "11,4", "12,4", "13,4", "14,4", "15,126", "15,64", "16,127", "17,4", "18,4", "11,1024"]
+ROOT_WEIGHT = {"11,1024": 30, "14,4": 28, "15,126": 25, "15,64": 25, "9,4": 24, "18,4": 22, "12,4": 18, "11,4": 17, "10,4": 17, "9,1": 14, "10,1": 12, "8,0": 8, "17,4": 8, "16,127": 8, "3,4": 7, "2,4": 5, "4,4": 5, "6,4": 5, "5,4": 4, "13,4": 1, "0,0": 1, "1,4": 2, "7,0": 3, "2,1": 3, "3,1": 4}
+QUICK_SHALLOW = {"11,1024": 3, "4,4": 3, "6,4": 3, "11,4": 3, "12,4": 3, "15,64": 3}
 HMC_RULE = ("explicit-state search by replay over the real crate under the oracle allocator: states = canonical keys of the concrete handle pool (representation, offsets, lengths, capacities, "
             "reference counts, control blocks, allocation sizes, lineage; modulo address renaming and slot permutation), transitions = every enabled operation of the alphabet with every boundary argument "
-            "(0,1,len-1,len,cap-1,cap,alloc-len, +1 variants, usize::MAX / isize::MAX class) on every live handle, from each of 24 roots (all representations, payload 0/1/4; uniquely held shared handles with a front offset; capacity-128 and capacity-1024 buffers where size-relative policies and the original-capacity classes are active), "
+            "(0,1,len-1,len,cap-1,cap,alloc-len, +1 variants, usize::MAX / isize::MAX class) on every live handle, from each of 25 roots (all representations, payload 0/1/4; uniquely held shared handles with a front offset; capacity-128 and capacity-1024 buffers where size-relative policies and the original-capacity classes are active), "
             "<= 3 handles, second root allowed; after every transition all oracles run and a drop-all epilogue checks the ledger. distinct_nontrivial = transitions that changed the canonical state")
 
 
